@@ -111,6 +111,12 @@ pub trait Stream: Sync + Send
 	{
 		1
 	}
+	/// false: a worker crash on a case of this stream is some other
+	/// property's subject; the case is discarded and counted
+	fn crash_is_failure(&self) -> bool
+	{
+		true
+	}
 	/// per-block watchdog
 	fn timeout(&self) -> Duration
 	{
@@ -973,6 +979,7 @@ pub fn run_check(check: &dyn Check, cfg: &RunConfig) -> i32
 		let sname = s.name();
 		let stride = s.stride();
 		let timeout = s.timeout();
+		let crash_counts = s.crash_is_failure();
 		// blocks of a multiple of stride
 		let threads = cfg.threads.max(1) as u64;
 		let mut per_block = (n / (threads * 8)).max(1);
@@ -1052,6 +1059,14 @@ pub fn run_check(check: &dyn Check, cfg: &RunConfig) -> i32
 										to: stride_end,
 										stride: 1,
 									});
+								}
+								else if !crash_counts
+								{
+									let mut t = tot.lock().unwrap();
+									t.evals += 1;
+									*t.discards
+										.entry(format!("worker crashed ({}): not this property's subject", sig))
+										.or_insert(0) += 1;
 								}
 								else
 								{
